@@ -151,6 +151,21 @@ def case(spec, log):
                     desc['bounds'] = bounds
                     desc['off'] = off
                     peers.raw_client(srv.addr, s[:off], ending=f['ending'], hold=f.get('hold', 0.0), split_last=f.get('split_last', 0.0))
+                elif kind == 'corrupt':
+                    # the client's process goes wrong rather than away: message m of its stream is well framed but unusable
+                    import pickle
+                    import struct
+                    st = streams[f['stream']]
+                    bounds = peers.message_bounds(st)
+                    m = min(f['msg'], max(0, len(bounds) - 2))
+                    n = bounds[m + 1] - bounds[m] - 4 if len(bounds) > m + 1 else 16
+                    body = {'garbage': bytes((7 * i + 3) % 251 for i in range(max(n, 8))), 'wrong-object': pickle.dumps(('not', 'what', 'you', 'expect')),
+                            'none': pickle.dumps(None)}[f['mode']]
+                    data = st[:bounds[m]] + struct.pack('!I', len(body)) + body
+                    desc['msg'] = m
+                    desc['stream_len'] = len(st)
+                    desc['off'] = len(data)
+                    peers.raw_client(srv.addr, data, ending=f['ending'], hold=0.2)
                 elif kind == 'ctrl':
                     # complete data stream of the hand-shake part (header + worker), then play with the control channel
                     s = streams['worker']
@@ -206,6 +221,8 @@ def step_of(f):
     """Protocol step a cut offset falls into (mechanism label)."""
     if f['kind'] == 'ctrl':
         return 'ctrl:' + f['step']
+    if f['kind'] == 'corrupt':
+        return 'unusable-message-%d:%s' % (f.get('msg', 0) + 1, f['mode'])
     off, b = f['off'], f.get('bounds', [0])
     if off == 0:
         return 'after-connect'
@@ -224,7 +241,7 @@ def run(tier):
     thorough = tier == 'thorough'
     chk = Check('C11', 'fault_enumeration', tier,
                 'recorded client byte streams {worker, persistent worker, context create, context delete, worker in context} replayed against a real server cut at every offset (thorough) / every length-prefix byte, +-4 around message boundaries and seeded offsets (quick), closed with FIN or RST; '
-                'control-channel steps {close data without connecting, connect and close, close after runtime info, vanish while running}; sequences of 3-5 faulty clients before one probe; '
+                'control-channel steps {close data without connecting, connect and close, close after runtime info, vanish while running}; well-framed but unusable messages (garbage, wrong object, None) in place of each of the first four messages of every stream; sequences of 3-5 faulty clients before one probe; '
                 'after each fault: server pid, well-behaved round trip, healthy persistent worker of another client; distinct non-trivial = distinct (stream, offset, ending) / (step, ending) / sequences')
     r = rng('c11')
     faults = []
@@ -242,6 +259,10 @@ def run(tier):
             for split_last in (0.0, 0.3):
                 for hold in (0.0, 0.3):
                     faults.append(dict(kind='cut', stream=stream, off=-1, ending=ending, split_last=split_last, hold=hold))
+    for stream in est:
+        for m in range(4):
+            for mode in ('garbage', 'wrong-object', 'none'):
+                faults.append(dict(kind='corrupt', stream=stream, msg=m, mode=mode, ending=r.choice(['fin', 'rst'])))
     for step in ('never-connect-then-close', 'connect-and-close', 'close-after-info', 'vanish-while-running'):
         for ending in ('fin', 'rst'):
             faults.append(dict(kind='ctrl', step=step, ending=ending))
@@ -278,7 +299,7 @@ def run(tier):
                 chk.count('faults_without_probe')
                 continue
             step = step_of(f)
-            chk.case((f['kind'], f.get('stream'), f.get('off'), f.get('step'), f['ending'], bool(f.get('sequence'))))
+            chk.case((f['kind'], f.get('stream'), f.get('off') if f['kind'] != 'corrupt' else (f.get('msg'), f.get('mode')), f.get('step'), f['ending'], bool(f.get('sequence'))))
             chk.count('faults_probed')
             chk.count('step_' + (f.get('stream', 'ctrl') + ':' + step.split(':')[-1])[:50])
             prob = None
@@ -293,7 +314,7 @@ def run(tier):
             if prob:
                 where = ('sequence' if f.get('sequence') else '%s:%s' % (f.get('stream', 'handshake'), step))
                 chk.violation('%s:%s' % (prob, where), 'after a client that %s: %s; health %s' % (
-                    ('sent %d of %d bytes of the %s stream (%s) and closed with %s' % (f.get('off', 0), f.get('stream_len', 0), f.get('stream'), step, f['ending'])) if f['kind'] == 'cut' else ('played control-channel step %s (%s)' % (f['step'], f['ending'])),
+                    ('sent %d of %d bytes of the %s stream (%s) and closed with %s' % (f.get('off', 0), f.get('stream_len', 0), f.get('stream'), step, f['ending'])) if f['kind'] == 'cut' else ('sent an unusable message (%s) in place of message %d of the %s stream' % (f['mode'], f.get('msg', 0) + 1, f.get('stream'))) if f['kind'] == 'corrupt' else ('played control-channel step %s (%s)' % (f['step'], f['ending'])),
                     prob, short(h, 300)), {'fault': f, 'health': h})
             elif len(chk.samples) < 4:
                 chk.sample({'fault': {k: v for k, v in f.items() if k != 'bounds'}, 'step': step, 'health': h})
